@@ -20,6 +20,8 @@ def main(argv=None):
     ap.add_argument("--workers", type=int, default=int(os.environ.get("VERIF_WORKERS", "16")))
     ap.add_argument("--seed", type=int, default=int(os.environ.get("VERIF_SEED", DEFAULT_SEED)))
     ap.add_argument("--budget", type=float, help="wall-clock safety net in seconds (exceeding it -> skipped runs, reported)")
+    ap.add_argument("--no-sweep", action="store_true", help="C11: skip the crash-point sweep part")
+    ap.add_argument("--sweep-bases", help="C12 thorough: comma-separated indices of sweep base scenarios (default: all)")
     ap.add_argument("--only", help="selftest-sensitivity: substring filter on seeded ids")
     ap.add_argument("--with-suite", action="store_true", help="selftest-sensitivity: also run the pinned test suite on each mutant")
     ap.add_argument("--what-check", help="digests: which check's engine to run")
